@@ -352,7 +352,14 @@ unsafe fn c_flow(c: &PCase, rec: &mut Rec) -> Vec<ScanDump> {
         (*(ud as *mut Vec<RuleDump>)).clear();
         let code = rec.r("yrx_scanner_scan", || yrx_scanner_scan(sc, if b.is_empty() { null() } else { b.as_ptr() }, b.len()));
         let rules_seen = (*(ud as *mut Vec<RuleDump>)).clone();
-        dumps.push(ScanDump { status: c_status(code), extra: set_status.clone(), rules: rules_seen });
+        let mut extra = set_status.clone();
+        if c.console {
+            // what the console callback received: a message with NUL must arrive escaped, never truncated
+            let msgs = CONSOLE.with_borrow_mut(std::mem::take);
+            for m in &msgs { emit(format!("P\tconsole callback received {:?}", String::from_utf8_lossy(m))); }
+            if joined(c).contains("\\x00") && !msgs.iter().any(|m| m.windows(4).any(|w| w == b"\\x00")) { extra.push(b"console message with NUL not delivered escaped".to_vec()); }
+        }
+        dumps.push(ScanDump { status: c_status(code), extra, rules: rules_seen });
     }
     rec.o("yrx_scanner_destroy", || yrx_scanner_destroy(sc));
     if c.block {
